@@ -428,6 +428,14 @@ def run(tier, seed):
         c.cov["evaluations"] += 1
         if failure:
             c.fail(failure[1], {"kind": "oracle-history", "seed": s, "step": failure[0], "page": text})
+    import liveval
+    lv = vlib.robust_map(liveval.work_pages, [0], chunk=1, timeout=300)[0]
+    if isinstance(lv, tuple) and lv and lv[0] in ("CRASH", "TIMEOUT", "PYEXC"):
+        c.fail("live-value probe %s: %s" % (lv[0], str(lv[1])[:300]), {"probe": "live-value-pages"})
+    else:
+        c.cov["evaluations"] += lv[1]
+        for msg in lv[0][:12]:
+            c.fail(msg, {"probe": "live-value-pages", "what": msg})
     c.cov["distinct_nontrivial"] = len(nontrivial)
     c.cov["rule"] = ("model histories: random parsed pages (<= 7 top-level constructs, headings of level 1-4) x sections from 1-2 "
                      "get_sections calls with random options (<= 5 views) x 1-7 edit calls (insert/append/set by index in [-n-2,n+2], "
@@ -444,6 +452,11 @@ def run(tier, seed):
 
 
 def replay(data):
+    if isinstance(data.get("data"), dict) and str(data["data"].get("probe", "")).startswith("live-value"):
+        import liveval
+        f, _n = getattr(liveval, "work_pages")([0])[0]
+        print("\n".join(f[:12]))
+        return 1 if f else 0
     d = data["data"]
     if d.get("kind") == "model-history":
         line, rec, failure, _nt, text = run_model_history(d["seed"])
